@@ -103,13 +103,15 @@ pub fn rand_variant(rng: &mut Rng) -> String {
 }
 pub fn rand_attr(rng: &mut Rng) -> String { word(rng, ALNUM, 3, 8) }
 pub fn rand_ukey(rng: &mut Rng) -> String {
-    if rng.chance(1, 2) { rng.pick(&["ca", "nu", "hc", "co", "kn", "fw", "1a"]).to_string() } else { format!("{}{}", word(rng, ALNUM, 1, 1), word(rng, ALPHA, 1, 1)) }
+    if rng.chance(1, 2) { rng.pick(&["ca", "nu", "hc", "co", "kn", "fw", "1a", "kb", "kc", "kh", "kk", "va", "ka", "ks"]).to_string() } else { format!("{}{}", word(rng, ALNUM, 1, 1), word(rng, ALPHA, 1, 1)) }
 }
 pub fn rand_utype(rng: &mut Rng) -> String {
+    if rng.chance(1, 15) { return rng.pick(&["yes", "no", "false", "YES", "standard", "traditional", "posix", "root", "und"]).to_string(); }
     if rng.chance(1, 12) { "true".into() } else if rng.chance(1, 25) { rng.pick(&["truex", "TrueType", "truely", "tru", "true1", "xtrue"]).to_string() } else if rng.chance(1, 3) { rng.pick(&["buddhist", "h12", "h23", "latn", "arab", "phonebk", "islamic", "civil"]).to_string() } else { word(rng, ALNUM, 3, 8) }
 }
 pub fn rand_tkey(rng: &mut Rng) -> String { format!("{}{}", word(rng, ALPHA, 1, 1), word(rng, DIGIT, 1, 1)) }
 pub fn rand_tvalue(rng: &mut Rng) -> String {
+    if rng.chance(1, 15) { return rng.pick(&["yes", "no", "false", "YES", "standard", "posix", "root", "und"]).to_string(); }
     if rng.chance(1, 12) { "true".into() } else if rng.chance(1, 25) { rng.pick(&["truex", "TrueType", "truely", "tru", "true1", "xtrue"]).to_string() } else if rng.chance(1, 3) { rng.pick(&["hybrid", "ungegn", "names", "prprname", "2007", "bgn"]).to_string() } else { word(rng, ALNUM, 3, 8) }
 }
 pub fn rand_priv(rng: &mut Rng) -> String { word(rng, ALNUM, 1, 8) }
@@ -267,7 +269,20 @@ pub fn render(rng: &mut Rng, toks: &[String]) -> Vec<u8> {
 }
 
 /// one to three byte/token-level edits
+/// a well-formed text with something a lenient reader might strip in front of or behind it: a UTF-8 byte order
+/// mark, white space, a NUL, a zero-width space, quotes, a stray separator
+pub const AFFIXES: [&[u8]; 12] = [b"\xef\xbb\xbf", b" ", b"\t", b"\n", b"\r\n", b"\x00", b"\xe2\x80\x8b", b"\xc2\xa0", b"\"", b"'", b"-", b"_"];
+pub fn affixed(rng: &mut Rng, s: &[u8]) -> Vec<u8> {
+    let a: &[u8] = *rng.pick(&AFFIXES);
+    let mut v = Vec::with_capacity(s.len() + 2 * a.len());
+    let w = rng.below(3);
+    if w != 1 { v.extend_from_slice(a); }
+    v.extend_from_slice(s);
+    if w != 0 { v.extend_from_slice(a); }
+    v
+}
 pub fn mutate(rng: &mut Rng, s: &[u8]) -> Vec<u8> {
+    if rng.chance(1, 12) { return affixed(rng, s); }
     let mut v = s.to_vec();
     let n = 1 + rng.below(3);
     for _ in 0..n {
